@@ -119,10 +119,15 @@ def params_of(fn):
 
 
 def get_paths_facts(fn):
+    return get_paths_facts_for(fn, 0)
+
+
+def get_paths_facts_for(fn, conn_index):
+    """facts about the uses of the parameter number conn_index (the connection) inside fn"""
     params = params_of(fn)
-    if not params:
-        raise Unclassified("get_paths has no parameters")
-    conn = params[0]
+    if len(params) <= conn_index:
+        raise Unclassified(f"{fn.name}: parameter {conn_index} missing")
+    conn = params[conn_index]
     local = set(bound_names(fn)) | set(params)
     reads, writes, other, free, scope = [], [], [], [], []
     consumed = set()  # ids of Name nodes that are the root of a classified attribute chain
@@ -329,6 +334,32 @@ def body_resolves_first(server_cls):
     return rows
 
 
+def pathperm_facts(tree):
+    """attribute chains of `connection` read / written by PathPermissions.__call__.wrapper, and whether the permission
+    object tested by getattr is bound exactly once, by `await connection.user.get_permissions(virtual_path)`"""
+    cls = next((n for n in tree.body if isinstance(n, ast.ClassDef) and n.name == "PathPermissions"), None)
+    if cls is None:
+        raise Unclassified("class PathPermissions not found")
+    call = next((n for n in cls.body if isinstance(n, ast.FunctionDef) and n.name == "__call__"), None)
+    wrapper = next((n for n in (call.body if call else []) if isinstance(n, ast.AsyncFunctionDef)), None)
+    if wrapper is None:
+        raise Unclassified("PathPermissions.__call__: no async wrapper")
+    _decos, params, reads, writes, other, _free, _scope = get_paths_facts_for(wrapper, 1)
+    tested = None
+    for n in ast.walk(wrapper):
+        if isinstance(n, ast.Call) and isinstance(n.func, ast.Name) and n.func.id == "getattr" and n.args and isinstance(n.args[0], ast.Name):
+            tested = n.args[0].id
+    if tested is None:
+        raise Unclassified("PathPermissions wrapper: no getattr(<permission object>, <flag>)")
+    binds_ = [st for st in own_statements(wrapper) if binds(st, tested)]
+    direct = False
+    if len(binds_) == 1 and isinstance(binds_[0], ast.Assign) and isinstance(binds_[0].value, ast.Await):
+        c = binds_[0].value.value
+        direct = (isinstance(c, ast.Call) and ast.unparse(c.func) == f"{params[1]}.user.get_permissions" and len(c.args) == 1 and not c.keywords
+                  and isinstance(c.args[0], ast.Name) and binds_[0] in wrapper.body)
+    return reads, writes, other, direct
+
+
 def generate(src_dir):
     path = Path(src_dir) / "server.py"
     tree = ast.parse(path.read_text())
@@ -360,6 +391,13 @@ def generate(src_dir):
     out += "Definition worker_paths : list (string * (string * (bool * (bool * list string)))) :=\n  [" + ";\n   ".join(wrows) + "].\n"
     out += "(* owner -> (bindings of real_path, (it is `real_path, _ = self.get_paths(connection, rest)`, (before the task is created, rebound names))) *)\n"
     out += "Definition handler_resolves : list (string * (nat * (bool * (bool * list string)))) :=\n  [" + ";\n   ".join(hrows) + "].\n"
+    pr, pw, po, pdirect = pathperm_facts(tree)
+    out += "(* PathPermissions.__call__.wrapper: attribute chains of `connection` read / written, other uses, and: the object tested by\n"
+    out += "   getattr is bound once by `await connection.user.get_permissions(virtual_path)` *)\n"
+    out += f"Definition pp_conn_reads : list string := {slist(pr)}.\n"
+    out += f"Definition pp_conn_writes : list string := {slist(pw)}.\n"
+    out += f"Definition pp_conn_other : list string := {slist(po)}.\n"
+    out += f"Definition pp_lookup_direct : bool := {emit.boolean(pdirect)}.\n"
     out += "(* method whose own body calls get_paths -> its first executing statement is `.. = self.get_paths(connection, rest)` without await *)\n"
     out += "Definition body_resolves_first : list (string * bool) :=\n  [" + "; ".join(body_resolves_first(srv)) + "].\n"
     return out
